@@ -342,7 +342,7 @@ func (t *memTracker) memFamiliesWithoutFields(metric string, fields []string, se
 	type rng struct{ lo, hi int }
 	mem := map[famKey]*rng{}
 	for id, pl := range t.place {
-		if !strings.HasPrefix(pl, "m") || t.meta[id].metric != metric {
+		if !strings.HasPrefix(pl, "m") || t.meta[id].metric != metric || t.dropped[id] {
 			continue
 		}
 		fk := t.fam[id]
